@@ -219,6 +219,13 @@ func runC09(w *World, tier string) (bool, interface{}) {
 			id := freshRoundID(w, uint64(len(w.Board.Msgs)))
 			parts, thr := reinitParticipants(w, m.DkgRoundID)
 			env := reinitEnvelope(w, by, id, thr, parts, []storage.Message{x})
+			if w.Tape.Bool(1, 2, "payloadNamesLiveRound") {
+				// the file inside names the live round itself, only the envelope
+				// carries the unused id
+				env = reinitEnvelope(w, by, m.DkgRoundID, thr, parts, []storage.Message{x})
+				env.DkgRoundID = id
+				env.Signature = ed25519.Sign(w.Nodes[by].Priv, env.Bytes())
+			}
 			injected++
 			kinds = append(kinds, "reinit-wrapped/"+kind+"@"+m.Event)
 			w.Stats.Fault("mutate-reinit-wrapped")
